@@ -217,6 +217,20 @@ def stages(which):
         out.append(Stage("Taus.tau_exit_prob", lambda: Taus(cfg), lambda o, b, le: o.tau_exit_prob(b, le), lambda rng, n: (g_angles(rng, n), g_le(rng, n))))
         out.append(Stage("Taus.tau_energy(u)", lambda: Taus(cfg), lambda o, b, le, u: o.tau_energy(b, le, u), lambda rng, n: (g_angles(rng, n), g_le(rng, n), rng.uniform(1e-9, 1 - 1e-9, n))))
         out.append(Stage("Taus.__call__", lambda: Taus(cfg), lambda o, b, le: o(b, le), lambda rng, n: (np.minimum(g_angles(rng, n), 0.7330382858376184), g_le(rng, n)), stub=0.37))
+
+        def g_le_scan(rng, n):
+            # an energy scan: consecutive blocks of one tabulated energy each (8192 = the sampler's chunk)
+            bl = 8192 if n > 8192 else max(1, n // 3)
+            nodes = rng.permutation(np.arange(6.0, 12.01, 0.25))
+            return np.repeat(nodes[np.arange(-(-n // bl)) % nodes.size], bl)[:n].astype(np.float64)
+
+        def g_u(rng, n):
+            u = rng.uniform(0, 1, n)
+            if n > 4:
+                u[:3] = [0.0, 1 - 2.0**-53, 5e-324]
+            return u
+
+        out.append(Stage("Taus.tau_energy(u)[energy scan]", lambda: Taus(cfg), lambda o, b, le, u: o.tau_energy(b, le, u), lambda rng, n: (rng.uniform(0.0017453292519943296, 0.7330382858376184, n), g_le_scan(rng, n), g_u(rng, n)), sizes=(17, 8193, 20000)))  # in-table angles only, so that the blocks stay aligned with the sampler's chunks
         for v in ("1", "2"):
             cv = NssConfig()
             cv.simulation.tau_shower.table_version = v
@@ -309,6 +323,6 @@ def run(ctx):
     if len(ctx.obs.get("stages_driven", [])) < 17:
         ctx.inconclusive_because(f"only {len(ctx.obs.get('stages_driven', []))} of 17 stage adapters were driven")
     return ctx.finish(
-        rule="17 stage adapters (geometry throw and positions, target-mode throw, exit probability for 3 table versions, tau energy with explicit u, Taus.__call__, decay altitude with explicit and internal numbers, both spectra, optical signal with and without a pressure-map cloud, radio field for two detector altitudes, SNR) x batch sizes {1,2,17,8191,8192,8193,20000} (kernel stages {1,2,17,101,250}) x {repeat, seeded permutations through reused buffers and fresh arrays, all split points for n<=17 / seeded ones, single-event rows}; batches mix every mask class of each stage; a case is a distinct (stage, batch)",
+        rule="18 stage adapters (geometry throw and positions, target-mode throw, exit probability for 3 table versions, tau energy with explicit u for scattered energies and for an energy scan in blocks, Taus.__call__, decay altitude with explicit and internal numbers, both spectra, optical signal with and without a pressure-map cloud, radio field for two detector altitudes, SNR) x batch sizes {1,2,17,8191,8192,8193,20000} (kernel stages {1,2,17,101,250}) x {repeat, seeded permutations through reused buffers and fresh arrays, all split points for n<=17 / seeded ones, single-event rows}; batches mix every mask class of each stage; a case is a distinct (stage, batch)",
         assumptions=["bit-for-bit comparison (numpy's vector and tail loops agree per element on this machine for the routines used)", "empty halves are not demanded (the pipeline never calls a stage with an empty batch)", "stages without an explicit-u parameter are driven with a constant RNG stub, so no draw order is assumed"],
     )
